@@ -5,6 +5,7 @@ package literal
 import (
 	"regexp/syntax"
 	"unicode"
+	"unicode/utf8"
 )
 
 // ExtractorConfig configures literal extraction limits.
@@ -585,7 +586,7 @@ func (e *Extractor) extractSuffixes(re *syntax.Regexp, depth int) *Seq {
 	case syntax.OpLiteral:
 		// Case-insensitive literal: expand case-folding variants
 		if re.Flags&syntax.FoldCase != 0 {
-			return e.expandCaseFoldLiteral(re.Rune)
+			return e.expandCaseFoldSuffix(re.Rune)
 		}
 		// Direct literal
 		bytes := runeSliceToBytes(re.Rune)
@@ -885,6 +886,46 @@ func (e *Extractor) expandCaseFoldLiteral(runes []rune) *Seq {
 		result.literals = result.literals[:e.config.MaxLiterals]
 	}
 	return result
+}
+
+// expandCaseFoldSuffix is expandCaseFoldLiteral for suffix extraction: when the
+// variants have to be trimmed, what is kept must be the END of the literal (the
+// bytes every match ends with), not its beginning. It expands the reversed literal
+// and reverses each variant back.
+func (e *Extractor) expandCaseFoldSuffix(runes []rune) *Seq {
+	rev := make([]rune, len(runes))
+	for i, r := range runes {
+		rev[len(runes)-1-i] = r
+	}
+	seq := e.expandCaseFoldLiteral(rev)
+	for i := range seq.literals {
+		b, whole := reverseRunes(seq.literals[i].Bytes)
+		seq.literals[i].Bytes = b
+		if !whole {
+			seq.literals[i].Complete = false
+		}
+	}
+	seq.Dedup()
+	return seq
+}
+
+// reverseRunes reverses b rune by rune. A trailing partial rune (left by a byte-length
+// truncation) is dropped; whole is false in that case.
+func reverseRunes(b []byte) (out []byte, whole bool) {
+	out = make([]byte, len(b))
+	whole = true
+	w := len(b)
+	for len(b) > 0 {
+		if !utf8.FullRune(b) {
+			whole = false
+			break
+		}
+		_, n := utf8.DecodeRune(b)
+		w -= n
+		copy(out[w:], b[:n])
+		b = b[n:]
+	}
+	return out[w:], whole
 }
 
 // generateCaseFoldVariants generates cross-product of fold sets up to prefixLen runes.
